@@ -7,7 +7,7 @@ export PYTHONPATH=/repo/src:/verif/harness PYTHONHASHSEED=0 PYTHONDONTWRITEBYTEC
 import sys
 sys.path.insert(0, "/verif/harness")
 import common
-errs = common.run_translators()
+errs, fallbacks = common.run_translators()
 if errs:
     print("translator errors (build continues; the affected check will report them):", errs)
 common.regen_coqproject()
